@@ -141,6 +141,17 @@ impl SwiftField for Field50A {
                 });
             }
 
+            // The serialiser numbers the lines 1, 2, ...: any other numbering would be re-numbered
+            if line.chars().next().and_then(|c| c.to_digit(10)) != Some((i - start_index + 1) as u32) {
+                return Err(ParseError::InvalidFormat {
+                    message: format!(
+                        "Field 50A line {} must carry the line number {}",
+                        i - start_index + 1,
+                        i - start_index + 1
+                    ),
+                });
+            }
+
             let text = &line[2..];
             if text.is_empty() || text.len() > 33 {
                 return Err(ParseError::InvalidFormat {
@@ -611,7 +622,7 @@ impl SwiftField for Field50InstructingParty {
         // Option C is a BIC (8 or 11 characters)
         // Option L is a party identifier (up to 35 characters)
 
-        let trimmed = input.trim();
+        let trimmed = input;
 
         // Try parsing as BIC first (more restrictive)
         if let Ok(field) = Field50C::parse(trimmed) {
